@@ -9,6 +9,7 @@ from conda_content_trust import authentication as A, common as C
 
 from vlib import gen_json as G, gen_metadata as GM, gpgchild, keys, ref_grammar as g, ref_openpgp, ref_verify as RV
 from vlib.ref_canon import canon
+from vlib import cfgunit as _cfgunit
 from vlib.runner import Inconclusive, Unit, Violation
 
 PROPERTY = "C10"
@@ -388,4 +389,6 @@ UNITS = [
         {"version": v, "thr": t} for v in ([1, 41, 10 ** 6] + ([2, 3, 2 ** 40] if tier == "thorough" else [])) for t in (1, 2)],
         shards_quick=6,
         doc="three-link root chain signed by GnuPG keys verifies link by link and not across a skipped version"),
+    _cfgunit.unit_under_config(PROPERTY, 'primitive', exclude=()),
+    _cfgunit.unit_under_config(PROPERTY, 'signable', exclude=()),
 ]
